@@ -1151,7 +1151,7 @@ def rename_var(tree, old, new):
     return [tree[0]] + [rename_var(a, old, new) for a in tree[1:]]
 
 
-def check_expr_eval(tree, values, style=0):
+def check_expr_eval(tree, values, style=0, backend="default"):
     """C05-B1: direct evaluation of the parsed expression (ExpressionParser + ComputeGraph.eval_node) == tree evaluator."""
     from pyrates.backend.parser import ExpressionParser
     from pyrates.backend.computegraph import ComputeGraph
@@ -1160,7 +1160,7 @@ def check_expr_eval(tree, values, style=0):
     expr = mdl.to_str(tree, style)
     want = mdl.ev(tree, vals)
     try:
-        cg = ComputeGraph(backend="default")
+        cg = ComputeGraph(backend=backend, **({} if backend == "default" else {"float_precision": "float64"}))
         args = {k: {"vtype": "constant", "value": np.float64(v), "dtype": "float64", "shape": ()} for k, v in vals.items()}
         ExpressionParser(expr_str=expr, args=args, cg=cg).parse_expr()
         got = cg.eval_node(cg.var_updates["non-DEs"]["x"])
